@@ -82,6 +82,24 @@ func c07Doc(t *core.Tape, w *world.World, rep *world.QEReport, version int) *wor
 		d.Attr = fit(d.Attr, n)
 	case 10:
 		d.Mrsigner = fit(d.Mrsigner, []int{0, 31, 33}[t.Draw(3)])
+	case 11, 12: // two masked bytes differ by the very same bit pattern (differences that cancel out under XOR, sum to zero mod 256 with their complement, ...)
+		i := t.Draw(16)
+		j := (i + 1 + t.Draw(15)) % 16
+		b := byte(1) << t.Draw(8)
+		d.AttrMask[i] |= b
+		d.AttrMask[j] |= b
+		d.Attr = andB(rep.Attributes[:], d.AttrMask)
+		d.Attr[i] ^= b
+		d.Attr[j] ^= b
+	case 13: // the same in MISCSELECT
+		i := t.Draw(4)
+		j := (i + 1 + t.Draw(3)) % 4
+		b := byte(1) << t.Draw(8)
+		d.MiscMask[i] |= b
+		d.MiscMask[j] |= b
+		d.Misc = andB(misc[:], d.MiscMask)
+		d.Misc[i] ^= b
+		d.Misc[j] ^= b
 	}
 	n := 1 + t.Draw(5)
 	for i := 0; i < n; i++ {
@@ -210,7 +228,7 @@ func init() {
 	register(&core.Check{
 		ID:    "C07",
 		Level: "exploration",
-		Rule: "per run a timeline of 3-7 events: Intel publishes a new signed QE identity (masks all-zero / all-one / random; one identity fault in ~half the documents: masked bit differs, value bit outside the mask, MRSIGNER / ISVPRODID differ, field or mask length 0/3/5 resp. 0/15/17, MRSIGNER length 0/31/33; 1-5 levels with isvsvn at -2..+2 around the report's, any of the 7 statuses), or the QE report changes (ISVSVN, MISCSELECT, ATTRIBUTES, MRSIGNER, ISVPRODID, MRENCLAVE) and is re-signed by the PCK key with the hash binding kept valid; after each event verify.RawTdxQuote is compared with the transcription of the C07 sentence. " +
+		Rule: "per run a timeline of 3-7 events: Intel publishes a new signed QE identity (masks all-zero / all-one / random; one identity fault in ~half the documents: masked bit differs (also in two bytes by the same pattern), value bit outside the mask, MRSIGNER / ISVPRODID differ, field or mask length 0/3/5 resp. 0/15/17, MRSIGNER length 0/31/33; 1-5 levels with isvsvn at -2..+2 around the report's, any of the 7 statuses), or the QE report changes (ISVSVN, MISCSELECT, ATTRIBUTES, MRSIGNER, ISVPRODID, MRENCLAVE) and is re-signed by the PCK key with the hash binding kept valid; after each event verify.RawTdxQuote is compared with the transcription of the C07 sentence. " +
 			"distinct = (list length, first-match index or none, its status, deciding clause)",
 		Assumptions: []string{"hosted: decided by agreement with the reference model over seeded party states", "wrong field/mask lengths cannot 'equal once masked' and must be rejected"},
 		RealStub:    map[string]string{"verify.RawTdxQuote": "real", "pcs JSON decoding": "real", "Intel CA, TCB signer, QE": "stub (world, timeline)", "reference model": "world.EvalQE"},
